@@ -656,6 +656,11 @@ pub struct Rechunk<B> {
     /// peer behaviour: re-encode `-bin` trailer values with '=' padding
     pub pad_bin: bool,
     pub trailers_tap: Option<Arc<Mutex<Vec<http::HeaderMap>>>>,
+    /// raw DATA bytes as the inner body produced them
+    pub data_tap: Option<Arc<Mutex<Vec<u8>>>>,
+    /// after the inner body ended, poll it 3 more times and count anything it still yields
+    pub probe_after_end: bool,
+    seen_trailers: bool,
 }
 
 /// What a padding peer does to binary metadata: same bytes, padded base64.
@@ -680,11 +685,13 @@ pub struct RechunkStats {
     pub merges: AtomicU64,
     pub pendings: AtomicU64,
     pub bytes: AtomicU64,
+    /// frames an inner body yielded after its trailers or after its end
+    pub after_end_frames: AtomicU64,
 }
 
 impl<B: Body<Data = Bytes>> Rechunk<B> {
     pub fn new(inner: B, rng: Rng, stats: Arc<RechunkStats>, max_piece: usize) -> Self {
-        Rechunk { inner: Box::pin(inner), rng, carry: Vec::new(), queue: Default::default(), inner_done: false, pend_budget: 0, stats, max_piece, pad_bin: false, trailers_tap: None }
+        Rechunk { inner: Box::pin(inner), rng, carry: Vec::new(), queue: Default::default(), inner_done: false, pend_budget: 0, stats, max_piece, pad_bin: false, trailers_tap: None, data_tap: None, probe_after_end: false, seen_trailers: false }
     }
     fn enqueue_data(&mut self, mut data: Vec<u8>) {
         // cut into pieces; maybe keep the last piece as carry (merged with the next frame)
@@ -744,6 +751,13 @@ where
                 Poll::Ready(None) => {
                     this.inner_done = true;
                     this.flush_carry();
+                    if this.probe_after_end {
+                        for _ in 0..3 {
+                            if let Poll::Ready(Some(_)) = this.inner.as_mut().poll_frame(cx) {
+                                this.stats.after_end_frames.fetch_add(1, Ordering::Relaxed);
+                            }
+                        }
+                    }
                 }
                 Poll::Ready(Some(Err(e))) => {
                     // deliver what we hold first? an error aborts the stream: drop carry like a reset would
@@ -751,8 +765,14 @@ where
                     return Poll::Ready(Some(Err(e)));
                 }
                 Poll::Ready(Some(Ok(f))) => {
+                    if this.seen_trailers {
+                        this.stats.after_end_frames.fetch_add(1, Ordering::Relaxed);
+                    }
                     if f.is_data() {
                         let d = f.into_data().ok().unwrap();
+                        if let Some(t) = &this.data_tap {
+                            t.lock().unwrap().extend_from_slice(&d);
+                        }
                         this.stats.bytes.fetch_add(d.len() as u64, Ordering::Relaxed);
                         let mut v = std::mem::take(&mut this.carry);
                         if !v.is_empty() {
@@ -762,6 +782,7 @@ where
                         this.enqueue_data(v);
                     } else {
                         this.flush_carry();
+                        this.seen_trailers = true;
                         let mut t = f.into_trailers().ok().unwrap();
                         if let Some(tap) = &this.trailers_tap {
                             tap.lock().unwrap().push(t.clone());
@@ -790,13 +811,17 @@ pub struct Loopback<S> {
     pub tap: Arc<Mutex<Vec<http::request::Parts>>>,
     pub resp_tap: Arc<Mutex<Vec<http::response::Parts>>>,
     pub trailers_tap: Arc<Mutex<Vec<http::HeaderMap>>>,
+    pub req_trailers_tap: Arc<Mutex<Vec<http::HeaderMap>>>,
+    pub req_body_tap: Arc<Mutex<Vec<u8>>>,
+    pub resp_body_tap: Arc<Mutex<Vec<u8>>>,
+    pub probe_after_end: bool,
     /// the "network peer" re-pads binary metadata in both directions (after the taps)
     pub pad_bin: bool,
 }
 
 impl<S> Loopback<S> {
     pub fn new(svc: S, seed: u64, max_piece: usize) -> Self {
-        Loopback { svc, seed, counter: Arc::new(AtomicU64::new(0)), stats: Arc::new(RechunkStats::default()), max_piece, tap: Default::default(), resp_tap: Default::default(), trailers_tap: Default::default(), pad_bin: false }
+        Loopback { svc, seed, counter: Arc::new(AtomicU64::new(0)), stats: Arc::new(RechunkStats::default()), max_piece, tap: Default::default(), resp_tap: Default::default(), trailers_tap: Default::default(), req_trailers_tap: Default::default(), req_body_tap: Default::default(), resp_body_tap: Default::default(), probe_after_end: false, pad_bin: false }
     }
 }
 
@@ -829,13 +854,19 @@ where
         if self.pad_bin {
             repad_bin(&mut parts.headers);
         }
-        let req = http::Request::from_parts(parts, Rechunk::new(body, r1, self.stats.clone(), self.max_piece));
+        let mut qb = Rechunk::new(body, r1, self.stats.clone(), self.max_piece);
+        qb.data_tap = Some(self.req_body_tap.clone());
+        qb.trailers_tap = Some(self.req_trailers_tap.clone());
+        qb.probe_after_end = self.probe_after_end;
+        let req = http::Request::from_parts(parts, qb);
         let fut = self.svc.call(req);
         let stats = self.stats.clone();
         let mp = self.max_piece;
         let rtap = self.resp_tap.clone();
         let ttap = self.trailers_tap.clone();
         let pad = self.pad_bin;
+        let probe = self.probe_after_end;
+        let rbtap = self.resp_body_tap.clone();
         Box::pin(async move {
             let resp = fut.await?;
             let (mut parts, body) = resp.into_parts();
@@ -852,6 +883,8 @@ where
             let mut rb = Rechunk::new(body, r2, stats, mp);
             rb.pad_bin = pad;
             rb.trailers_tap = Some(ttap);
+            rb.data_tap = Some(rbtap);
+            rb.probe_after_end = probe;
             Ok(http::Response::from_parts(parts, rb))
         })
     }
